@@ -6,6 +6,7 @@ import (
 	"fmt"
 	"sort"
 	"strings"
+	"sync"
 
 	"go.opentelemetry.io/otel/log"
 	sdklog "go.opentelemetry.io/otel/sdk/log"
@@ -462,6 +463,86 @@ func main() {
 				k.C.Sample(map[string]any{"count_limit": cnt, "length_limit": length, "program": prog})
 			}
 		})
+		// the emitting path with one Logger shared by several goroutines: every record still holds exactly what
+		// was offered for it (each record's attributes carry that record's own tag)
+		c.Cases("concurrent-emit", c.N(300, 4000), 4, func(k *vf.Case) {
+			r := k.R
+			cnt := vf.Pick(r, []int{-1, 0, 3, 6, 128})
+			var mu sync.Mutex
+			bad := ""
+			seen := 0
+			cp := &capture{fn: func(rec *sdklog.Record) {
+				tag := rec.Body().AsString()
+				n := 0
+				wrong := ""
+				rec.WalkAttributes(func(kv log.KeyValue) bool {
+					n++
+					if kv.Value.AsString() != tag {
+						wrong = fmt.Sprintf("record %s holds %s=%q", tag, kv.Key, kv.Value.AsString())
+					}
+					return true
+				})
+				var offered int
+				fmt.Sscanf(tag[strings.LastIndexByte(tag, '/')+1:], "%d", &offered)
+				mu.Lock()
+				seen++
+				if wrong != "" && bad == "" {
+					bad = wrong
+				}
+				if n+rec.DroppedAttributes() != offered && bad == "" {
+					bad = fmt.Sprintf("record %s: %d attributes held + %d dropped, %d offered", tag, n, rec.DroppedAttributes(), offered)
+				}
+				if n != rec.AttributesLen() && bad == "" {
+					bad = fmt.Sprintf("record %s: AttributesLen %d, walked %d", tag, rec.AttributesLen(), n)
+				}
+				mu.Unlock()
+			}}
+			lp := sdklog.NewLoggerProvider(sdklog.WithProcessor(cp), sdklog.WithAttributeCountLimit(cnt))
+			lg := lp.Logger("shared")
+			G := vf.Pick(r, []int{2, 4, 8})
+			per := 50 + r.Intn(200)
+			var wg sync.WaitGroup
+			release := make(chan struct{})
+			for g := 0; g < G; g++ {
+				seed := r.U64()
+				wg.Add(1)
+				go func(g int) {
+					defer wg.Done()
+					defer func() {
+						if rec := recover(); rec != nil {
+							mu.Lock()
+							if bad == "" {
+								bad = fmt.Sprintf("panic in Emit: %v", rec)
+							}
+							mu.Unlock()
+						}
+					}()
+					gr := vf.NewRNG(seed)
+					<-release
+					for i := 0; i < per; i++ {
+						na := gr.Intn(12)
+						tag := fmt.Sprintf("g%d-%d/%d", g, i, na)
+						var rec log.Record
+						rec.SetBody(log.StringValue(tag))
+						for a := 0; a < na; a++ {
+							rec.AddAttributes(log.String(fmt.Sprintf("k%d", a), tag))
+						}
+						lg.Emit(context.Background(), rec)
+					}
+				}(g)
+			}
+			close(release)
+			wg.Wait()
+			if bad != "" {
+				k.Violate("concurrent-emit-mixed-records", limClass(cnt), bad, nil)
+			}
+			if seen != G*per {
+				k.Violate("concurrent-emit-lost-records", "", fmt.Sprintf("%d of %d", seen, G*per), nil)
+			}
+			k.C.Count("concurrent_emit_cases", 1)
+			k.C.Sig(fmt.Sprintf("concurrent-emit|%d|%s", G, limClass(cnt)))
+		})
+		c.Floor("concurrent_emit_cases", 100)
 		c.Floor("programs_hit_count_limit", 1000)
 		c.Floor("programs_overwrote_front", 1000)
 		c.Floor("programs_overwrote_back", 1000)
